@@ -2,7 +2,9 @@
   C11 — eager loading attaches to each record exactly its own rows: the key-string core.
 -/
 import GormModel.Model.Identity
+import GormModel.Model.JoinScan
 import GormModel.Gen.PreloadFacts
+import GormModel.Gen.PreloadSessions
 import GormModel.Lemmas.Identity
 namespace Gorm
 
@@ -441,6 +443,240 @@ theorem C11_many2many_hop_example :
       = [.colEq "owner_tags".toList "tag_code".toList "tags".toList "code".toList] ∧
     preloadJoinPairs s.refs = [("owner_ref".toList, "ref".toList)] ∧
     preloadHopPairs s.refs = [("code".toList, "tag_code".toList)] := by
+  decide
+
+/-! ## Round 3 (1): scanning the columns of an association join into nested relation structs (`scanIntoStruct`) -/
+
+theorem walkChain_null (pre : RelPath) (chain : List JLevel) (alloc : List RelPath) :
+    (walkChain true pre chain alloc).2 = alloc := by
+  induction chain generalizing pre alloc with
+  | nil => rfl
+  | cons l rest ih =>
+    unfold walkChain
+    by_cases hp : l.ptr = true
+    · by_cases hc : pre ++ [l.name] ∈ alloc
+      · simp [hp, hc, ih]
+      · simp [hp, hc]
+    · simp [hp, ih]
+
+theorem walkChain_nonnull (pre : RelPath) (chain : List JLevel) (alloc : List RelPath) :
+    (walkChain false pre chain alloc).1 = false ∧
+    ∀ p, p ∈ (walkChain false pre chain alloc).2 ↔ p ∈ alloc ∨ p ∈ ptrPrefixes pre chain := by
+  induction chain generalizing pre alloc with
+  | nil => simp [walkChain, ptrPrefixes]
+  | cons l rest ih =>
+    unfold walkChain ptrPrefixes
+    by_cases hp : l.ptr = true
+    · by_cases hc : pre ++ [l.name] ∈ alloc
+      · obtain ⟨h1, h2⟩ := ih (pre ++ [l.name]) alloc
+        simp only [hp, List.contains_iff_mem, hc, if_true]
+        refine ⟨h1, fun p => ?_⟩
+        rw [h2 p]
+        constructor
+        · rintro (h | h)
+          · exact Or.inl h
+          · exact Or.inr (List.mem_cons_of_mem _ h)
+        · rintro (h | h)
+          · exact Or.inl h
+          · rcases List.mem_cons.mp h with h | h
+            · exact Or.inl (h ▸ hc)
+            · exact Or.inr h
+      · obtain ⟨h1, h2⟩ := ih (pre ++ [l.name]) (alloc ++ [pre ++ [l.name]])
+        simp only [hp, List.contains_iff_mem, hc, if_true, if_false, Bool.false_eq_true]
+        refine ⟨h1, fun p => ?_⟩
+        rw [h2 p]
+        simp only [List.mem_append, List.mem_cons, List.not_mem_nil, or_false]
+        constructor
+        · rintro ((h | h) | h)
+          · exact Or.inl h
+          · exact Or.inr (Or.inl h)
+          · exact Or.inr (Or.inr h)
+        · rintro (h | h | h)
+          · exact Or.inl (Or.inl h)
+          · exact Or.inl (Or.inr h)
+          · exact Or.inr h
+    · obtain ⟨h1, h2⟩ := ih (pre ++ [l.name]) alloc
+      simp only [hp, if_false, Bool.false_eq_true]
+      exact ⟨h1, h2⟩
+
+theorem scanCell_alloc (st : ScanSt) (c : JCell) (p : RelPath) :
+    p ∈ (scanCell st c).alloc ↔ p ∈ st.alloc ∨ (c.isNull = false ∧ p ∈ ptrPrefixes [] c.chain) := by
+  unfold scanCell
+  cases hn : c.isNull with
+  | true =>
+    have h := walkChain_null [] c.chain st.alloc
+    by_cases h1 : (walkChain true [] c.chain st.alloc).1 = true <;> simp [h1, h]
+  | false =>
+    obtain ⟨h1, h2⟩ := walkChain_nonnull [] c.chain st.alloc
+    simp [h1, h2]
+
+theorem foldl_scan_alloc (cells : List JCell) (st : ScanSt) (p : RelPath) :
+    p ∈ (cells.foldl scanCell st).alloc ↔
+      p ∈ st.alloc ∨ ∃ c ∈ cells, c.isNull = false ∧ p ∈ ptrPrefixes [] c.chain := by
+  induction cells generalizing st with
+  | nil => simp
+  | cons c rest ih =>
+    rw [List.foldl_cons, ih, scanCell_alloc]
+    constructor
+    · rintro ((h | h) | ⟨c', hc', h⟩)
+      · exact Or.inl h
+      · exact Or.inr ⟨c, List.mem_cons_self, h⟩
+      · exact Or.inr ⟨c', List.mem_cons_of_mem _ hc', h⟩
+    · rintro (h | ⟨c', hc', h⟩)
+      · exact Or.inl (Or.inl h)
+      · rcases List.mem_cons.mp hc' with e | e
+        · exact Or.inl (Or.inr (e ▸ h))
+        · exact Or.inr ⟨c', e, h⟩
+
+/-- MAIN (joined columns): for every result row, every column list in every order and every NULL pattern, a pointer
+    relation is allocated for the row IFF some selected column in it or below it is non-NULL.  In particular a
+    has-one / belongs-to row the LEFT JOIN matched is attached as soon as ANY of its selected columns carries a value —
+    whichever column comes first — and a relation all of whose columns are NULL (no match) stays nil. -/
+theorem C11_scan_attached_iff (cells : List JCell) (p : RelPath) :
+    p ∈ (scanRow cells).alloc ↔ attachedSpec cells p := by
+  unfold scanRow attachedSpec
+  rw [foldl_scan_alloc]
+  simp
+
+/-- the decision does not depend on the ORDER of the selected columns (declaration order of the joined model, order of a
+    Select list, nullable columns first or key last) -/
+theorem C11_scan_order_independent (cells cells' : List JCell) (h : cells.Perm cells') (p : RelPath) :
+    p ∈ (scanRow cells).alloc ↔ p ∈ (scanRow cells').alloc := by
+  rw [C11_scan_attached_iff, C11_scan_attached_iff]
+  unfold attachedSpec
+  constructor
+  · rintro ⟨c, hc, h1⟩; exact ⟨c, h.mem_iff.mp hc, h1⟩
+  · rintro ⟨c, hc, h1⟩; exact ⟨c, h.mem_iff.mpr hc, h1⟩
+
+/-- none foreign on the join side: a relation none of whose columns carries a value is not attached -/
+theorem C11_scan_unmatched_not_attached (cells : List JCell) (p : RelPath)
+    (h : ∀ c ∈ cells, p ∈ ptrPrefixes [] c.chain → c.isNull = true) : p ∉ (scanRow cells).alloc := by
+  rw [C11_scan_attached_iff]
+  rintro ⟨c, hc, hn, hp⟩
+  rw [h c hc hp] at hn
+  cases hn
+
+theorem scanCell_sets_mono (st : ScanSt) (c : JCell) (x : RelPath × List Char × Bool) (h : x ∈ st.sets) :
+    x ∈ (scanCell st c).sets := by
+  unfold scanCell
+  by_cases h1 : (walkChain c.isNull [] c.chain st.alloc).1 = true
+  · simp [h1, h]
+  · simp [h1, h]
+
+theorem foldl_scan_sets_mono (cells : List JCell) (st : ScanSt) (x : RelPath × List Char × Bool) (h : x ∈ st.sets) :
+    x ∈ (cells.foldl scanCell st).sets := by
+  induction cells generalizing st with
+  | nil => exact h
+  | cons c rest ih => exact ih _ (scanCell_sets_mono st c x h)
+
+/-- none missing inside the attached row: every non-NULL selected column is written into its relation struct -/
+theorem C11_scan_value_kept (cells : List JCell) (c : JCell) (hc : c ∈ cells) (hn : c.isNull = false) :
+    (c.path, c.col, false) ∈ (scanRow cells).sets := by
+  unfold scanRow
+  generalize (⟨[], []⟩ : ScanSt) = st
+  induction cells generalizing st with
+  | nil => cases hc
+  | cons d rest ih =>
+    rw [List.foldl_cons]
+    rcases List.mem_cons.mp hc with e | e
+    · subst e
+      apply foldl_scan_sets_mono
+      unfold scanCell
+      have h1 := (walkChain_nonnull [] c.chain st.alloc).1
+      rw [hn]
+      simp [h1]
+    · exact ih e _
+
+/-- non-vacuity and the fault class it excludes: joined relation `Card` with columns (note = NULL, n = 7) — the real loop
+    attaches it, a loop that decides from the first column would drop the matched row -/
+theorem C11_scan_first_column_counterexample :
+    let card : List JLevel := [⟨"Card".toList, true⟩]
+    let cells : List JCell := [⟨card, "note".toList, true⟩, ⟨card, "n".toList, false⟩]
+    (scanRow cells).alloc = [["Card".toList]] ∧ scanRowFirst cells = [] ∧
+    (scanRow cells.reverse).alloc = [["Card".toList]] ∧ scanRowFirst cells.reverse = [["Card".toList]] := by
+  decide
+
+/-- a nested example: only the deepest relation has a value (its ancestors' selected columns are all NULL) — every
+    pointer hop on the way is allocated; a non-pointer hop needs no allocation -/
+theorem C11_scan_nested_example :
+    let cells : List JCell := [⟨[⟨"P".toList, true⟩], "x".toList, true⟩,
+      ⟨[⟨"P".toList, true⟩, ⟨"T".toList, false⟩, ⟨"W".toList, true⟩], "k".toList, false⟩]
+    (scanRow cells).alloc = [["P".toList], ["P".toList, "T".toList, "W".toList]] := by
+  decide
+
+/-! ## Round 3 (2): the soft-delete scope of every level of a load is the finisher's `Unscoped` -/
+
+theorem SessionRule.derive_inherits (r : SessionRule) (h : r.Inherits) (b : Bool) : r.derive b = b := by
+  unfold SessionRule.derive
+  rcases h with h | h
+  · simp [h]
+  · by_cases hc : r.copies = true <;> simp [hc, h]
+
+theorem sessionAt_inherits (s : PreloadSessions) (h : s.Inherits) (flag : Bool) (hops : List LoadHop) :
+    sessionAt s flag hops = flag := by
+  obtain ⟨hr, hs, ht, he, hk⟩ := h
+  induction hops generalizing flag with
+  | nil => rfl
+  | cons hop rest ih =>
+    cases hop
+    · simp only [sessionAt]; rw [ih, SessionRule.derive_inherits _ hs]
+    · simp only [sessionAt]; rw [ih, SessionRule.derive_inherits _ ht]
+    · simp only [sessionAt]
+      rw [ih, SessionRule.derive_inherits _ hr]
+      unfold PreloadSessions.query PreloadSessions.keep
+      rw [SessionRule.derive_inherits _ he]; simp [hk]
+
+/-- for EVERY path of joined / preloaded hops (any depth, any mixture, slice or single destination): if every session
+    construction on the way either keeps the parent's statement or copies the flag, the SELECT that loads the relation
+    runs with exactly the finisher's `Unscoped` -/
+theorem C11_unscoped_inherited (s : PreloadSessions) (h : s.Inherits) (u : Bool) (hops : List LoadHop) :
+    childQueryUnscoped s u hops = u := by
+  unfold childQueryUnscoped
+  rw [sessionAt_inherits s h]
+  obtain ⟨hr, _, _, he, hk⟩ := h
+  unfold PreloadSessions.query PreloadSessions.keep
+  rw [SessionRule.derive_inherits _ he, SessionRule.derive_inherits _ hr]; simp [hk]
+
+/-- the session constructions of the tree as it is now (regenerated from callbacks/query.go `Preload`,
+    callbacks/preload.go `preloadDB` / `preloadEntryPoint`, statement.go `Statement.clone`) -/
+def currentSessions : PreloadSessions :=
+  ⟨⟨Gen.preloadRootNewDB, Gen.preloadRootCopies⟩, ⟨Gen.preloadJoinedSliceNewDB, Gen.preloadJoinedSliceCopies⟩,
+   ⟨Gen.preloadJoinedStructNewDB, Gen.preloadJoinedStructCopies⟩, ⟨Gen.preloadEntryNewDB, Gen.preloadEntryCopies⟩,
+   Gen.stmtCloneKeepsUnscoped⟩
+
+theorem C11_unscoped_current_tree (u : Bool) (hops : List LoadHop) : childQueryUnscoped currentSessions u hops = u :=
+  C11_unscoped_inherited currentSessions (by decide) u hops
+
+/-- the fault class: a `NewDB` session below a joined relation without the copy loses `Unscoped` although the root session
+    and plain (nested) preloads still carry it -/
+theorem C11_unscoped_lost_counterexample :
+    let s : PreloadSessions := ⟨⟨true, true⟩, ⟨true, false⟩, ⟨true, false⟩, ⟨false, true⟩, true⟩
+    childQueryUnscoped s true [] = true ∧ childQueryUnscoped s true [.preloaded, .preloaded] = true ∧
+    childQueryUnscoped s true [.joinedSlice] = false ∧ childQueryUnscoped s true [.joinedStruct, .preloaded] = false := by
+  decide
+
+/-! ## Round 3 (3): a failed query of a load is reported -/
+
+theorem C11_fault_reported (checked : List Bool) (h : ∀ b ∈ checked, b = true) (k : Option Nat) :
+    loadOutcome checked k ≠ .silentlyIncomplete := by
+  cases k with
+  | none => simp [loadOutcome]
+  | some k =>
+    cases hk : checked[k]? with
+    | none => simp [loadOutcome, hk]
+    | some b =>
+      have hb : b ∈ checked := List.mem_of_getElem? hk
+      have := h b hb
+      subst this
+      simp [loadOutcome, hk]
+
+/-- `preload` sends (at least) the join-table query and the related-table query; the error of each is returned -/
+theorem C11_fault_reported_current_tree :
+    2 ≤ Gen.preloadFindsChecked.length ∧ ∀ k, loadOutcome Gen.preloadFindsChecked k ≠ .silentlyIncomplete :=
+  ⟨by decide, C11_fault_reported _ (by decide)⟩
+
+/-- the fault class: the first query's error lands on a handle nobody looks at -/
+theorem C11_fault_swallowed_counterexample : loadOutcome [false, true] (some 0) = .silentlyIncomplete := by
   decide
 
 end Gorm
